@@ -213,6 +213,13 @@ static long long max_arr = 0, max_map = 0, max_buf = 0, max_str = 0;
 static int monitor_sizes = 0;
 static int pc_violation = 0;
 static int cur_step = -1;
+static int evalcost_override = 0;   // set by the "evalcost" step: the next call keeps the scripted budget
+
+static void begin_evaluation () {
+  // like backend(): every top-level evaluation starts with a full budget
+  if (!evalcost_override) eval_cost = CONFIG_INT (__MAX_EVAL_COST__);
+  evalcost_override = 0;
+}
 
 static void check_size_of (svalue_t *v) {
   switch (v->type) {
@@ -268,6 +275,7 @@ static std::string last_master_error () {
   error_context_t econ;
   if (!save_context (&econ)) return r;
   if (!setjmp (econ.context)) {
+    eval_cost = CONFIG_INT (__MAX_EVAL_COST__);
     svalue_t *ret = apply ("verif_take_error", master_ob, 0, ORIGIN_DRIVER);
     if (ret && ret->type == T_STRING) r.assign (ret->u.string, SVALUE_STRLEN (ret));
   } else {
@@ -365,6 +373,7 @@ static void do_call (int step, std::vector<std::string> &a) {
     return;
   }
   int n = 0;
+  begin_evaluation ();
   for (size_t i = 3; i < a.size (); i++, n++) push_arg (a[i]);
   svalue_t *ret = apply (a[2].c_str (), ob, n, ORIGIN_DRIVER);
   pop_context (&econ);
@@ -385,6 +394,7 @@ static void do_load (int step, std::vector<std::string> &a, bool clone) {
     return;
   }
   object_t *ob;
+  begin_evaluation ();
   if (clone) ob = clone_object (a[1].c_str (), 0);
   else ob = load_object (a[1].c_str (), a.size () > 2 ? a[2].c_str () : 0);
   pop_context (&econ);
@@ -401,6 +411,7 @@ static void do_destruct (int step, std::vector<std::string> &a) {
     restore_context (&econ); pop_context (&econ);
     rec_begin (step, "err"); rec_kv_str ("msg", last_master_error ()); rec_end (); return;
   }
+  begin_evaluation ();
   destruct_object (ob);
   pop_context (&econ);
   rec_begin (step, "ok"); rec_end ();
@@ -423,7 +434,7 @@ void run_direct_step (int i, std::vector<std::string> &a) {
   else if (c == "clearcache") { clear_apply_cache (); rec_begin (i, "ok"); rec_end (); }
   else if (c == "regs") snap_regs (i);
   else if (c == "stats") snap_stats (i);
-  else if (c == "evalcost") { eval_cost = strtoll (a[1].c_str (), 0, 10); }
+  else if (c == "evalcost") { eval_cost = strtoll (a[1].c_str (), 0, 10); evalcost_override = 1; }
   else if (c == "resetcost") { eval_cost = CONFIG_INT (__MAX_EVAL_COST__); }
   else if (c == "settime") { verif_clock_set (strtoll (a[1].c_str (), 0, 10)); current_time = verif_clock_get (); }
   else if (c == "inject") { // inject <k> [times]
